@@ -177,6 +177,8 @@ def modfunc(ex, state, mod, name, args, kw, line):
     ctx = ex.ctx
     if mod in ('utl', '_time', 'time'):
         return SNum('t')
+    if mod in ('tt', 'sle') and ('fn:' + name) in ctx.registry:
+        return call_contract(ex, state, 'fn:' + name, args, kw, line)
     if mod == 'np.linalg' and name == 'norm':
         return SNum('norm', nonneg=z3.BoolVal(True))
     if mod in ('linalg', 'lin', 'sp.linalg') and name == 'svd':
@@ -422,8 +424,11 @@ def method(ex, state, obj, name, args, kw, line, node):
     if isinstance(obj, SList):
         if name == 'append':
             ex.frame_list(obj, state, line)
-            if obj.kind == 'ttref' and isinstance(args[0], STT) and obj.items is None:
-                args = [args[0].ref]
+            if obj.kind == 'ttref' and isinstance(args[0], STT):
+                from vt.e1 import heap
+                r = heap.freeze(ex, state, args[0], line)
+                if obj.items is None:
+                    args = [r]
             if obj.items is not None:
                 obj.items.append(args[0])
                 obj.length = len(obj.items)
